@@ -17,6 +17,8 @@ type scRM struct {
 	baseScn
 	closeAt int
 	bumps   int
+	holeVb  int // a replica slot that is / was unassigned (-1: none)
+	holeR   int
 }
 
 func init() { scenarios["C07"] = func() Scenario { return &scRM{} } }
@@ -55,6 +57,12 @@ func (s *scRM) Configure(w *World) {
 	c.AdvEventMax = 1 * time.Second
 	c.Advances = []time.Duration{time.Millisecond, c.RMInterval / 5, c.RMInterval, 1013 * time.Millisecond}
 	w.buildCluster()
+	s.holeVb = -1
+	if c.NReplicas > 0 && t.Draw(3, nil) == 0 {
+		// the session starts with one replica slot unassigned (e.g. after a fail-over); a later map revision fills it
+		s.holeVb, s.holeR = t.Draw(c.NVb, nil), 1+t.Draw(c.NReplicas, nil)
+		w.cl.buckets[c.Bucket].vbmap[s.holeVb][s.holeR] = -1
+	}
 	// the preloaded history is not persisted anywhere yet
 	w.journalVbMap()
 	if t.Draw(4, nil) == 0 {
@@ -135,7 +143,7 @@ func (s *scRM) Actions(w *World) []Action {
 			}
 		}
 	}
-	if c.W.Failover > 0 && s.bumps < 2 && w.ready1() {
+	if (c.W.Failover > 0 || s.holeVb >= 0) && s.bumps < 2 && w.ready1() {
 		acts = append(acts, Action{ID: "mapbump", W: 1, Do: func() {
 			s.bumps++
 			w.mu.Lock()
@@ -144,6 +152,10 @@ func (s *scRM) Actions(w *World) []Action {
 			vb := w.tape.Draw(c.NVb, nil)
 			if c.NReplicas > 0 {
 				r := 1 + w.tape.Draw(c.NReplicas, nil)
+				if s.holeVb >= 0 && w.tape.Draw(2, nil) == 0 {
+					vb, r = s.holeVb, s.holeR // the slot that has been toggled before
+				}
+				s.holeVb, s.holeR = vb, r
 				if b.vbmap[vb][r] >= 0 {
 					b.vbmap[vb][r] = -1
 				} else if r < c.NNodes {
